@@ -67,8 +67,11 @@ def hand(tid, cfg, steps):
 def run(ctx, replay=None):
     engine.build_go(ctx, ['txpool'])
     if replay is not None:
-        rep = engine.run_driver(ctx, 'txpool', [replay['trace']], env={'TMPDIR': TMP})
-        engine.collect(ctx, rep, [replay['trace']], 'txpool')
+        drv = replay.get('engine') if replay.get('engine') in ('clist',) else 'txpool'
+        if drv != 'txpool':
+            engine.build_go(ctx, [drv])
+        rep = engine.run_driver(ctx, drv, [replay['trace']], env={'TMPDIR': TMP})
+        engine.collect(ctx, rep, [replay['trace']], drv)
         ctx.cov['traces_validated_against_impl'] = 1
         ctx.cov['states'] = ctx.cov['transitions'] = max(1, len(replay['trace']['steps']))
         ctx.sample({'replayed': len(replay['trace']['steps'])})
@@ -76,6 +79,9 @@ def run(ctx, replay=None):
 
     quick = ctx.tier == 'quick'
     traces = []
+    # the concurrent list under the mempool list and the pool's admin/broadcast queues
+    from . import clist_slice
+    clist_slice.run(ctx, quick)
 
     # 0. behaviours with an eviction tick wait for the pool's own one-minute ticker: simulate them first and let ONE driver
     #    process replay them (concurrently) in the background while TLC does the exhaustive runs
